@@ -1,20 +1,216 @@
-"""Regex / stdlib call models (stage 2).  Placeholders raise Unsupported."""
+"""Models of the `regex` module, of bytes methods that produce lists, of comprehensions, and the assumed contracts
+of the standard-library functions the decoders call (DESIGN.md 4.3, 4.4).  Everything here is TRUSTED BASE; each
+assumed contract used by an obligation is recorded in `ex.assumed` and listed in the evidence."""
 from __future__ import annotations
 
+import ast
+
+import z3
+
+from . import regex2smt as R2
+from .builtins_tbl import sop, uf
 from .values import *  # noqa: F403
+
+REGEX_CONTRACT = (
+    "regex contract: a match m of P in data has 0 <= m.start() <= m.end() <= len(data), m.group(0) == data[start:end] in L(P°) "
+    "(look-arounds/anchors erased), successive finditer matches do not overlap, a participating group g has its span inside the match "
+    "and m.group(g) == data[span(g)] in L(sub-pattern g°); WHICH substring is matched (leftmost, greedy) is not specified"
+)
+
+
+# ---------------------------------------------------------------------------------------------- match objects
+def _pattern_bytes(ex, v):
+    if isinstance(v, VBytes):
+        s = z3.simplify(v.z)
+        if z3.is_string_value(s):
+            return z3_to_bytes(s)
+    return None  # a pattern that is not a compile-time constant: only the span part of the regex contract is available
+
+
+def re_finditer(ex, pat: bytes, data: VBytes, st):
+    ex.assumed.add(REGEX_CONTRACT)
+    n = fresh("nmatch", I)
+    st.assume(n >= 0)
+    it = VObj("matchiter", {"n": n, "MS": fresh("MS", ArrII), "ME": fresh("ME", ArrII), "pat": pat, "data": data.z, "groups": {}})
+    return it
+
+
+def match_at(ex, it, i, st, guard=None):
+    a = it.attrs
+    ms, me = a["MS"][i], a["ME"][i]
+    n = z3.Length(a["data"])
+    f = z3.And(0 <= ms, ms <= me, me <= n)
+    prev = z3.Implies(i > 0, a["ME"][i - 1] <= ms)
+    st.fact(z3.Implies(guard, z3.And(f, prev)) if guard is not None else z3.And(f, prev))
+    return VObj("match", {"it": it, "i": i, "guard": guard})
+
+
+def single_match(ex, pat: bytes, data: VBytes, st, kind, pos=None):
+    """re.search / re.match / re.fullmatch -> a match object that may be None."""
+    ex.assumed.add(REGEX_CONTRACT)
+    truthy = fresh("matched", B)
+    it = VObj("matchiter", {"n": z3.IntVal(1), "MS": fresh("MS", ArrII), "ME": fresh("ME", ArrII), "pat": pat, "data": data.z, "groups": {}})
+    zero = z3.IntVal(0)
+    m = match_at(ex, it, zero, st, guard=truthy)
+    m.attrs["_truthy"] = truthy
+    m.attrs["_isnone"] = z3.Not(truthy)
+    ms, me = it.attrs["MS"][zero], it.attrs["ME"][zero]
+    n = z3.Length(data.z)
+    if kind == "match":
+        p = zero if pos is None else pos
+        st.fact(z3.Implies(truthy, ms == p))
+    if kind == "fullmatch":
+        st.fact(z3.Implies(truthy, z3.And(ms == 0, me == n)))
+        if pat is not None and not R2.has_erased(pat):
+            lang, _ = R2.to_re(pat)
+            st.fact(truthy == z3.InRe(data.z, lang))  # exact for patterns without anchors / look-arounds
+    if pos is not None:
+        st.fact(z3.Implies(truthy, ms >= pos))
+    return m
+
+
+def _group_arrays(ex, it, g):
+    gs = it.attrs["groups"]
+    if g not in gs:
+        gs[g] = (fresh(f"GS{g}", ArrII), fresh(f"GE{g}", ArrII), fresh(f"GP{g}", z3.ArraySort(I, B)))
+    return gs[g]
+
+
+def _mand(pat, g):
+    return g not in R2.toplevel_optional_groups(pat)
+
+
+def match_span(ex, m, g, st):
+    it, i = m.attrs["it"], m.attrs["i"]
+    a = it.attrs
+    if g == 0:
+        return a["MS"][i], a["ME"][i], z3.BoolVal(True)
+    if a["pat"] is None:
+        raise Unsupported("group access with a non-constant pattern")
+    if g > R2.parse(a["pat"]).ngroups:
+        ex.raise_if(st, z3.BoolVal(True), "IndexError", "no such group")
+    GS, GE, GP = _group_arrays(ex, it, g)
+    part = z3.BoolVal(True) if _mand(a["pat"], g) else GP[i]
+    inside = z3.And(a["MS"][i] <= GS[i], GS[i] <= GE[i], GE[i] <= a["ME"][i])
+    fact = z3.And(z3.Implies(part, inside), z3.Implies(z3.Not(part), z3.And(GS[i] == -1, GE[i] == -1)))
+    gd = m.attrs.get("guard")
+    st.fact(z3.Implies(gd, fact) if gd is not None else fact)
+    return GS[i], GE[i], part
+
+
+def match_text(ex, m, g, st):
+    it, i = m.attrs["it"], m.attrs["i"]
+    a = it.attrs
+    s, e, part = match_span(ex, m, g, st)
+    txt = z3.SubString(a["data"], s, e - s)
+    if a["pat"] is None:
+        st.fact(z3.Length(txt) == e - s)
+        return txt, part
+    lang, groups = R2.to_re(a["pat"])
+    lg = lang if g == 0 else groups.get(g)
+    gd = m.attrs.get("guard")
+    if lg is not None and not getattr(st, "in_binder", 0):
+        f = z3.Implies(part, z3.InRe(txt, lg))
+        st.fact(z3.Implies(gd, f) if gd is not None else f)
+        st.fact(z3.Implies(part, z3.Length(txt) == e - s))
+    return txt, part
 
 
 def obj_method(ex, recv, name, args, kwargs, st):
+    if recv.cls == "match":
+        g = 0
+        if args:
+            if not (isinstance(args[0], VInt) and is_int_const(args[0].z)):
+                raise Unsupported("symbolic group number")
+            g = int_const(args[0].z)
+        if "_isnone" in recv.attrs:
+            ex.raise_if(st, recv.attrs["_isnone"], "AttributeError", f"None.{name}")
+        if name == "group":
+            txt, part = match_text(ex, recv, g, st)
+            if z3.is_true(z3.simplify(part)):
+                return VBytes(txt)
+            return VOpt(z3.Not(part), VBytes(txt))
+        if name in ("start", "end", "span"):
+            s, e, part = match_span(ex, recv, g, st)
+            if name == "start":
+                return VInt(s)
+            if name == "end":
+                return VInt(e)
+            return VTuple([VInt(s), VInt(e)])
     raise Unsupported(f"method {name} on {recv}")
 
 
+# ---------------------------------------------------------------------------------------------- bytes methods producing lists etc.
 def strip_model(ex, recv, args, st):
-    raise Unsupported("bytes.strip")
+    s = recv.z
+    if args:
+        chars = z3.simplify(args[0].z)
+        if not z3.is_string_value(chars):
+            raise Unsupported("strip of symbolic character set")
+        cs = z3_to_bytes(chars)
+    else:
+        cs = b" \t\n\r\x0b\x0c"
+    ex.assumed.add("bytes.strip(chars): result is a substring data[a:b] whose first and last bytes are not in chars and the removed ends are")
+    cls = z3.Union(*[z3.Re(z3.StringVal(chr(c))) for c in cs]) if len(cs) > 1 else z3.Re(z3.StringVal(chr(cs[0])))
+    r = fresh("stripped", S)
+    a = fresh("lstrip", I)
+    b = fresh("rstrip", I)
+    n = z3.Length(s)
+    st.fact(z3.And(0 <= a, a <= b, b <= n, r == z3.SubString(s, a, b - a), z3.Length(r) == b - a))
+    st.fact(z3.InRe(z3.SubString(s, 0, a), z3.Star(cls)))
+    st.fact(z3.InRe(z3.SubString(s, b, n - b), z3.Star(cls)))
+    notc = z3.Complement(cls)
+    st.fact(z3.Implies(b > a, z3.And(z3.Not(z3.InRe(z3.SubString(r, 0, 1), cls)), z3.Not(z3.InRe(z3.SubString(r, b - a - 1, 1), cls)))))
+    return type(recv)(r)
+
+
+def split_model(ex, recv, name, args, kwargs, st):
+    """sep.split / rsplit -> list[bytes] (symbolic): joined by the separator it gives the receiver back; no piece
+    contains the separator when there is no maxsplit; with maxsplit=k at most k+1 pieces."""
+    s = recv.z
+    sep = args[0] if args else kwargs.get("sep")
+    maxsplit = args[1] if len(args) > 1 else kwargs.get("maxsplit")
+    n = fresh("npieces", I)
+    arr = fresh("pieces", ArrIS)
+    lst = VList(arr, n, "bytes")
+    ex.assumed.add("bytes.split/rsplit: pieces re-joined by the separator give the receiver; no separator inside a piece (no maxsplit); at most maxsplit+1 pieces; whitespace split drops empty pieces")
+    if sep is None or isinstance(sep, VNone):
+        # whitespace split: pieces are non-empty and whitespace-free
+        st.fact(n >= 0)
+        k = fresh("k", I)
+        ws = z3.Union(*[z3.Re(z3.StringVal(c)) for c in " \t\n\r\x0b\x0c"])
+        nows = z3.Plus(z3.Complement(z3.Concat(z3.Star(z3.Range(chr(0), chr(255))), ws, z3.Star(z3.Range(chr(0), chr(255))))))
+        f = uf(ex, "WSPIECE", S, I, S)
+        lst.arr = z3.Lambda([k], f(s, k)) if False else arr
+        st.fact((n == 0) == z3.InRe(s, z3.Star(ws)))
+        if maxsplit is not None:
+            st.fact(n <= maxsplit.z + 1)
+        # element facts are produced on access (see subscript_list_fact)
+        lst.split_info = ("ws", s, None, maxsplit)
+        return lst
+    sz = sep.z
+    st.fact(n >= 1)
+    if maxsplit is not None:
+        st.fact(n <= maxsplit.z + 1)
+        st.fact(z3.Implies(z3.Contains(s, sz), n >= 2) if True else z3.BoolVal(True))
+        st.fact(z3.Implies(z3.And(maxsplit.z >= 1, z3.Contains(s, sz)), n >= 2))
+        st.fact(z3.Implies(z3.Not(z3.Contains(s, sz)), z3.And(n == 1, arr[0] == s)))
+        if is_int_const(maxsplit.z) and int_const(maxsplit.z) == 1:
+            st.fact(z3.Implies(n == 2, s == z3.Concat(arr[0], sz, arr[1])))
+            if name == "rsplit":
+                st.fact(z3.Implies(n == 2, z3.Not(z3.Contains(arr[1], sz))))
+            else:
+                st.fact(z3.Implies(n == 2, z3.Not(z3.Contains(arr[0], sz))))
+    else:
+        cnt = uf(ex, "COUNT", S, S, I)(s, sz)
+        st.fact(z3.And(cnt >= 0, n == cnt + 1))
+        st.fact((cnt == 0) == z3.Not(z3.Contains(s, sz)))
+        st.fact(z3.Implies(n == 1, arr[0] == s))
+    lst.split_info = ("sep", s, sz, maxsplit)
+    return lst
 
 
 def str_method(ex, recv, name, args, kwargs, st):
-    import z3
-
     if name == "join":
         lst = args[0]
         if not isinstance(lst, VList):
@@ -24,23 +220,134 @@ def str_method(ex, recv, name, args, kwargs, st):
         sep = z3.simplify(recv.z)
         if z3.is_string_value(sep) and sep.as_string() == "" and lst.bytebuf is not None:
             return type(recv)(lst.bytebuf)
-        from .builtins_tbl import uf
-
         f = uf(ex, "JOIN", S, lst.arr.sort(), I, S)
         ex.assumed.add("bytes.join over an untracked list: uninterpreted JOIN(sep, items, n)")
-        return type(recv)(f(recv.z, lst.arr, lst.n))
+        r = f(recv.z, lst.arr, lst.n)
+        nn = z3.simplify(lst.n)
+        if z3.is_int_value(nn) and nn.as_long() <= 3:
+            parts = []
+            for k in range(nn.as_long()):
+                if k:
+                    parts.append(recv.z)
+                parts.append(lst.arr[k])
+            st.fact(r == (z3.Concat(*parts) if len(parts) > 1 else parts[0] if parts else z3.StringVal("")))
+        return type(recv)(r)
+    if name in ("split", "rsplit"):
+        return split_model(ex, recv, name, args, kwargs, st)
+    if name == "splitlines":
+        n = fresh("nlines", I)
+        st.fact(n >= 0)
+        return VList(fresh("lines", ArrIS), n, "bytes")
+    if name == "decode":
+        return decode_model(ex, recv, args, kwargs, st)
+    if name == "encode":
+        return encode_model(ex, recv, args, kwargs, st)
+    if name == "hex":
+        f = uf(ex, "HEXLIFY", S, S)
+        r = f(recv.z)
+        st.fact(z3.Length(r) == 2 * z3.Length(recv.z))
+        return VStr(r)
     raise Unsupported(f"bytes.{name}")
 
 
+ASCII_RE = z3.Star(z3.Range(chr(0), chr(127)))
+
+
+def decode_model(ex, recv, args, kwargs, st):
+    enc = "utf-8"
+    if args:
+        e = z3.simplify(args[0].z)
+        enc = e.as_string() if z3.is_string_value(e) else None
+    errors = kwargs.get("errors")
+    ignore = errors is not None and z3.is_string_value(z3.simplify(errors.z)) and z3.simplify(errors.z).as_string() == "ignore"
+    s = recv.z
+    if enc in ("ascii", "utf-8", "utf8"):
+        # ASCII input decodes to itself; anything else may raise (utf-8: may also succeed with a different text)
+        ok = z3.InRe(s, ASCII_RE)
+        if enc == "ascii":
+            if not ignore:
+                ex.raise_if(st, z3.Not(ok), "UnicodeDecodeError", "decode ascii")
+            return VStr(s)
+        flag = fresh("utf8_invalid", B)
+        if not ignore:
+            ex.raise_if(st, z3.And(z3.Not(ok), flag), "UnicodeDecodeError", "decode utf-8")
+        r = fresh("decoded", S)
+        st.fact(z3.Implies(ok, r == s))
+        ex.assumed.add("bytes.decode(): ASCII decodes to itself; non-ASCII input may raise UnicodeDecodeError (utf-8 validity is not modelled)")
+        return VStr(r)
+    if enc == "utf-16":
+        ex.assumed.add("bytes.decode('utf-16'): cannot raise on an even-length input none of whose code units is a surrogate (high byte outside D8-DF); otherwise it may raise UnicodeDecodeError; the result has no lone surrogates")
+        flag = fresh("utf16_invalid", B)
+        hi_ok = z3.Union(z3.Range(chr(0), chr(0xD7)), z3.Range(chr(0xE0), chr(0xFF)))
+        safe = z3.Star(z3.Concat(z3.Range(chr(0), chr(255)), hi_ok))
+        if not ignore:
+            ex.raise_if(st, z3.And(z3.Not(z3.InRe(s, safe)), flag), "UnicodeDecodeError", "decode utf-16")
+        f = uf(ex, "UTF16DEC", S, S)
+        out = VStr(f(s))
+        out.may_have_surrogates = False
+        return out
+    raise Unsupported(f"decode({enc})")
+
+
+def encode_model(ex, recv, args, kwargs, st):
+    s = recv.z
+    f = uf(ex, "UTF8ENC", S, S)
+    r = f(s)
+    ok = z3.InRe(s, ASCII_RE)
+    st.fact(z3.Implies(ok, r == s))
+    st.fact(z3.Length(r) >= z3.Length(s))
+    flag = fresh("surrogate", B)
+    src = getattr(recv, "may_have_surrogates", True)
+    cp = getattr(recv, "codepoint", None)
+    if cp is not None:
+        ex.raise_if(st, z3.And(cp >= 0xD800, cp <= 0xDFFF), "UnicodeEncodeError", "encode (surrogate code point)")
+    elif src:
+        ex.raise_if(st, z3.And(z3.Not(ok), flag), "UnicodeEncodeError", "encode (lone surrogate)")
+    ex.assumed.add("str.encode(): ASCII encodes to itself; raises UnicodeEncodeError only for lone surrogates")
+    return VBytes(r)
+
+
 def minmax(ex, is_max, args, kw, st):
-    raise Unsupported("min/max")
+    raise Unsupported("min/max over an iterable")
+
+
+# ---------------------------------------------------------------------------------------------- library calls
+def _const_str(v):
+    s = z3.simplify(v.z)
+    return s.as_string() if z3.is_string_value(s) else None
+
+
+INT_DEC = None
+
+
+def int_lang(base):
+    """The literal language accepted by int(bytes, base) (ASCII whitespace, sign, digits with single underscores)."""
+    ws = z3.Star(z3.Union(*[z3.Re(z3.StringVal(c)) for c in " \t\n\r\x0b\x0c"]))
+    sign = z3.Option(z3.Union(z3.Re("+"), z3.Re("-")))
+    if base == 10:
+        d = z3.Range("0", "9")
+        pre = EPS_
+    elif base == 16:
+        d = z3.Union(z3.Range("0", "9"), z3.Range("a", "f"), z3.Range("A", "F"))
+        pre = z3.Option(z3.Concat(z3.Re("0"), z3.Union(z3.Re("x"), z3.Re("X")), z3.Option(z3.Re("_"))))
+    else:
+        raise Unsupported(f"int base {base}")
+    digits = z3.Concat(d, z3.Star(z3.Concat(z3.Option(z3.Re("_")), d)))
+    return z3.Concat(ws, sign, pre, digits, ws)
+
+
+EPS_ = z3.Re(z3.StringVal(""))
 
 
 def call_py(ex, obj, name, node, st):
+    import binascii
     import builtins
+    import urllib.parse
 
     from . import engine_models as EM
 
+    mod = getattr(obj, "__module__", "") or ""
+    oname = getattr(obj, "__name__", name)
     if obj is builtins.sorted:
         args, kw = ex.eval_args(node, st)
         lst = args[0]
@@ -50,16 +357,250 @@ def call_py(ex, obj, name, node, st):
         if keyfn is None or not isinstance(keyfn, VFunc):
             raise Unsupported("sorted without a key lambda")
         return EM.model_sorted(ex, lst, keyfn, st)
+    if obj is builtins.int:
+        args, kw = ex.eval_args(node, st)
+        a = args[0]
+        base = 10
+        b = args[1] if len(args) > 1 else kw.get("base")
+        if b is not None:
+            if not is_int_const(b.z):
+                # conditional base (16 if .. else 10): split on the condition
+                raise Unsupported("symbolic int() base")
+            base = int_const(b.z)
+        if isinstance(a, VInt):
+            return a
+        if isinstance(a, (VBytes, VStr)):
+            ex.assumed.add("int(text, base): raises ValueError iff text is not in the literal language ws sign? (0x)? digits(_digits)* ws; the value is the number denoted")
+            ex.raise_if(st, z3.Not(z3.InRe(a.z, int_lang(base))), "ValueError", f"int(text, {base})")
+            f = uf(ex, f"INTVAL{base}", S, I)
+            r = f(a.z)
+            # value facts: non-negative when no sign can occur; bounded by the digit count
+            nodash = z3.Not(z3.Contains(a.z, z3.StringVal("-")))
+            st.fact(z3.Implies(nodash, r >= 0))
+            if base == 10:
+                # exact value of a plain literal of one to three digits, through the character codes (no str.to_int)
+                dg = lambda k: z3.StrToCode(z3.SubString(a.z, k, 1)) - 48  # noqa: E731
+                ln = z3.Length(a.z)
+                val = z3.If(ln == 1, dg(0), z3.If(ln == 2, 10 * dg(0) + dg(1), 100 * dg(0) + 10 * dg(1) + dg(2)))
+                st.fact(z3.Implies(z3.InRe(a.z, z3.Loop(z3.Range("0", "9"), 1, 3)), r == val))
+                st.fact(z3.Implies(z3.InRe(a.z, z3.Loop(z3.Range("0", "9"), 4, 9)), z3.And(r >= 0, r <= 999999999)))
+            if base == 16:
+                hexd = z3.Union(z3.Range("0", "9"), z3.Range("a", "f"), z3.Range("A", "F"))
+                st.fact(z3.Implies(z3.InRe(a.z, z3.Loop(hexd, 1, 2)), z3.And(r >= 0, r <= 255)))
+                st.fact(z3.Implies(z3.InRe(a.z, z3.Concat(z3.Re("0"), z3.Union(z3.Re("x"), z3.Re("X")), z3.Loop(hexd, 1, 2))), z3.And(r >= 0, r <= 255)))
+            return VInt(r)
+        if isinstance(a, VOpt):
+            raise Unsupported("int(None?)")
+        raise Unsupported(f"int({a})")
+    if obj is builtins.chr:
+        (a,), _ = ex.eval_args(node, st)
+        ex.raise_if(st, z3.Or(a.z < 0, a.z > 0x10FFFF), "ValueError", "chr() arg not in range(0x110000)")
+        f = uf(ex, "CHR", I, S)
+        r = VStr(f(a.z))
+        r.codepoint = a.z
+        st.fact(z3.Length(r.z) == 1)
+        st.fact(z3.Implies(z3.And(0 <= a.z, a.z < 128), r.z == z3.StrFromCode(a.z)))
+        return r
+    if obj is builtins.set:
+        (a,), _ = ex.eval_args(node, st)
+        if isinstance(a, VBytes):
+            f = uf(ex, "NDISTINCT", S, I)
+            r = f(a.z)
+            st.fact(z3.And(r >= 0, r <= z3.Length(a.z), r <= 256, (r == 0) == (z3.Length(a.z) == 0)))
+            ex.assumed.add("len(set(bytes)): number of distinct bytes, between 0 and min(len, 256), 0 iff empty")
+            return VList(z3.K(I, z3.IntVal(0)), r, "int")
+        raise Unsupported("set()")
+    if obj is builtins.all or obj is builtins.any:
+        return all_any(ex, obj is builtins.all, node, st)
+    if obj is builtins.max and node.keywords:
+        return EM_max(ex, node, st)
+    if mod == "regex.regex" or mod == "regex" or mod.startswith("regex"):
+        args, kw = ex.eval_args(node, st)
+        if oname in ("finditer", "search", "match", "fullmatch"):
+            pat = _pattern_bytes(ex, args[0])
+            data = args[1]
+            if not isinstance(data, VBytes):
+                raise Unsupported("regex on non-bytes")
+            if oname == "finditer":
+                return re_finditer(ex, pat, data, st)
+            pos = kw.get("pos")
+            return single_match(ex, pat, data, st, oname, pos.z if pos is not None else None)
+        if oname == "sub":
+            return re_sub(ex, args, kw, st)
+    if obj is binascii.a2b_base64:
+        (a,), _ = ex.eval_args(node, st)
+        flag = fresh("b64_invalid", B)
+        ex.raise_if(st, flag, "binascii.Error", "a2b_base64")
+        ex.assumed.add("binascii.a2b_base64 (non-strict): total except binascii.Error; the result is the RFC 4648 decoding of the alphabet characters (uninterpreted B64DEC)")
+        f = uf(ex, "B64DEC", S, S)
+        r = f(a.z)
+        st.fact(z3.Length(r) * 4 <= z3.Length(a.z) * 3)
+        return VBytes(r)
+    if obj is binascii.unhexlify:
+        (a,), _ = ex.eval_args(node, st)
+        hexd = z3.Union(z3.Range("0", "9"), z3.Range("a", "f"), z3.Range("A", "F"))
+        ok = z3.InRe(a.z, z3.Star(z3.Concat(hexd, hexd)))
+        ex.raise_if(st, z3.Not(ok), "binascii.Error", "unhexlify")
+        ex.assumed.add("binascii.unhexlify: raises binascii.Error iff the argument is not an even number of hex digits; len(result) == len(arg)/2 (uninterpreted UNHEX)")
+        f = uf(ex, "UNHEX", S, S)
+        r = f(a.z)
+        st.fact(z3.Implies(ok, z3.Length(r) * 2 == z3.Length(a.z)))
+        return VBytes(r)
+    if obj is urllib.parse.unquote_to_bytes:
+        (a,), _ = ex.eval_args(node, st)
+        ex.assumed.add("urllib.parse.unquote_to_bytes: total on bytes; result no longer than the argument (uninterpreted UNQUOTE)")
+        f = uf(ex, "UNQUOTE", S, S)
+        r = f(a.z)
+        st.fact(z3.And(z3.Length(r) <= z3.Length(a.z), z3.Length(r) * 3 >= z3.Length(a.z)))
+        st.fact(z3.Implies(z3.Not(z3.Contains(a.z, z3.StringVal("%"))), r == a.z))
+        return VBytes(r)
     raise Unsupported(f"call of {name}")
 
 
+def re_sub(ex, args, kw, st):
+    pat = _pattern_bytes(ex, args[0])
+    repl, s = args[1], args[2]
+    ex.assumed.add("regex.sub(P, literal, s): uninterpreted RESUB_P(s); with an empty replacement the result is no longer than s and equal to s when s has no match of P")
+    if isinstance(repl, VBytes):
+        rz = z3.simplify(repl.z)
+        if z3.is_string_value(rz) and rz.as_string() == "":
+            f = uf(ex, "RESUB_" + str(abs(hash(pat)) % 10**8), S, S)
+            r = f(s.z)
+            st.fact(z3.Length(r) <= z3.Length(s.z))
+            return VBytes(r)
+    raise Unsupported("re.sub with a non-empty or callable replacement")
+
+
+def all_any(ex, is_all, node, st):
+    """all(<genexp>) / any(<genexp>) over a bytes or list source: a quantified condition."""
+    g = node.args[0]
+    if not isinstance(g, ast.GeneratorExp) or len(g.generators) != 1 or g.generators[0].ifs:
+        raise Unsupported("all/any of a non-trivial generator")
+    gen = g.generators[0]
+    it = ex.iter_source(gen.iter, st)
+    i = fresh("i", I)
+    view = st.clone()
+    view.in_binder += 1
+    ex.assign(gen.target, ex.iter_elem(it, i, view), view)
+    saved = getattr(ex, "spec_mode", False)
+    ex.spec_mode = True
+    try:
+        c = ex.truthy(ex.eval(g.elt, view), view)
+    finally:
+        ex.spec_mode = saved
+    rng = z3.And(0 <= i, i < it["n"])
+    return VBool(z3.ForAll([i], z3.Implies(rng, c)) if is_all else z3.Exists([i], z3.And(rng, c)))
+
+
+def EM_max(ex, node, st):
+    raise Unsupported("max with keyword arguments")
+
+
+# ---------------------------------------------------------------------------------------------- comprehensions
 def comprehension(ex, node, st, kind):
     from . import engine_models as EM
 
     if EM.is_registry_genexp(ex, node, st):
         return EM.registry_batch(ex, node, st)
-    raise Unsupported("comprehension")
+    if len(node.generators) != 1:
+        raise Unsupported("comprehension with several generators")
+    gen = node.generators[0]
+    it = ex.iter_source(gen.iter, st)
+    pre = ex.flush(st)
+    if pre:
+        raise Unsupported("raising iteration source inside a comprehension")
+    n = it["n"]
+    # ---- the body for an ARBITRARY index i (forall-introduction)
+    i = fresh("ci", I)
+    sc = st.clone()
+    sc.assume(0 <= i, i < n)
+    A0 = sc.alloc
+    ex.assign(gen.target, ex.iter_elem(it, i, sc), sc)
+    if isinstance(gen.target, ast.Name) and gen.target.id in ex.c.comp_assume:
+        sc.assume(ex.spec_bool(ex.c.comp_assume[gen.target.id], sc))
+        ex.assumed.add(f"trusted lemma about the elements `{gen.target.id}` of a comprehension in {ex.qualname}: {ex.c.comp_assume[gen.target.id]}")
+    for cond in gen.ifs:
+        c = ex.truthy(ex.eval(cond, sc), sc)
+        sc.assume(c)
+    e = ex.eval(node.elt, sc)
+    # potential raises of the body: obligations unless the function's contract allows the exception
+    line = getattr(ex, "cur_line", 0)
+    from . import builtins_tbl as BT
+
+    for cond, exc, desc, ln in sc.pending:
+        allowed = any(cls in ex.c.raises or cls in ex.c.raises_iff for cls in BT.exc_supers(exc))
+        handler = getattr(ex, "comp_handlers", [])
+        caught = any(h in BT.exc_supers(exc) for h in handler)
+        if caught:
+            # inside try/except: the whole comprehension may raise; the condition is existential over i
+            st.pending.append((z3.Exists([i], z3.And(0 <= i, i < n, z3.And(*sc.path[len(st.path):]), cond)) if False else fresh("comp_raises", B), exc, desc, ln))
+            continue
+        if not allowed:
+            s2 = sc.clone()
+            s2.pending = []
+            s2.assume(cond)
+            ex.oblige(s2, "safe", f"{exc}@L{ln - ex.fn.lineno}:{desc} (comprehension element)", z3.BoolVal(False), ln)
+    sc.pending = []
+    has_filter = bool(gen.ifs)
+    m = fresh("ncomp", I) if has_filter else n
+    if has_filter:
+        st.assume(0 <= m, m <= n)
+    if isinstance(e, VRef):
+        return comp_nodes(ex, st, sc, e, A0, m, i)
+    if isinstance(e, (VInt, VBytes)):
+        ek = e.kind
+        arr = fresh("comp", z3.ArraySort(I, ELEM_SORT[ek]))
+        out = VList(arr, m, ek)
+        # elementwise obligations for consumers (bytes(...) needs 0 <= x < 256): remember the arbitrary element and its state
+        out.arbitrary = (i, e, sc)
+        if not has_filter:
+            k = fresh("k", I)
+            # definitional fact for the arbitrary element, generalised over the fresh symbols of the body
+            out.elem_state = sc
+        return out
+    raise Unsupported(f"comprehension element of kind {e.kind}")
 
 
-def match_at(ex, it, i, st):
-    raise Unsupported("match iteration")
+def comp_nodes(ex, st, sc, e, A0, m, i):
+    """List of freshly allocated nodes built by a comprehension.  The element clauses of the function's contract
+    (`ensures_each`) are proved for the arbitrary element in the body's state and then assumed of every element."""
+    from .exec import HEAP_FIELDS
+
+    # frame: the body writes only nodes it allocates
+    for f in list(HEAP_FIELDS) + ["children", "nchildren"]:
+        if sc.heap[f] is not st.heap[f]:
+            r = fresh("r", I)
+            ex.oblige(sc, "frame/write", f"{f}@comprehension", z3.ForAll([r], z3.Implies(z3.And(0 <= r, r < A0), sc.heap[f][r] == st.heap[f][r])), getattr(ex, "cur_line", 0))
+    each = getattr(ex.c, "ensures_each", {}) or {}
+    v = sc.clone()
+    v.store["node"] = e
+    v.store["fresh_from"] = VInt(A0)
+    for nm, clause in each.items():
+        ex.oblige(v, "each", nm, ex.spec_bool(clause, v), getattr(ex, "cur_line", 0))
+    ex.oblige(v, "each", "element-is-fresh", z3.And(e.z >= A0, e.z < sc.alloc), getattr(ex, "cur_line", 0))
+    # ---- the resulting list and heap
+    A1 = fresh("alloc@comp", I)
+    st.assume(A1 >= A0)
+    old = dict(st.heap)
+    r = fresh("r", I)
+    for f in list(HEAP_FIELDS) + ["children", "nchildren"]:
+        new = fresh(f"H_{f}@comp", st.heap[f].sort())
+        st.assume(z3.ForAll([r], z3.Implies(z3.And(0 <= r, r < A0), new[r] == old[f][r])))
+        st.heap[f] = new
+    st.alloc = A1
+    ex.heap_type_invariants(st)
+    R = fresh("nodes", ArrII)
+    out = VList(R, m, "ref")
+    k = fresh("k", I)
+    k2 = fresh("k2", I)
+    st.assume(z3.ForAll([k], z3.Implies(z3.And(0 <= k, k < m), z3.And(A0 <= R[k], R[k] < A1))))
+    st.assume(z3.ForAll([k, k2], z3.Implies(z3.And(0 <= k, k < k2, k2 < m), R[k] != R[k2])))
+    view = st.clone()
+    view.in_binder += 1
+    view.store = dict(st.store)
+    view.store["node"] = VRef(R[k])
+    view.store["fresh_from"] = VInt(A0)
+    for nm, clause in each.items():
+        st.assume(z3.ForAll([k], z3.Implies(z3.And(0 <= k, k < m), ex.spec_bool(clause, view))))
+    out.established = set(each)
+    return out
